@@ -32,8 +32,9 @@ Inductive rv :=
 | VPanic                                 (* the result of a usize subtraction that underflows *)
 | VEnum (c : string) (args : list rv)    (* a variant of one of the crate's enums: ZipItem::ItemA(v) *)
 | VRef (path : list string)              (* `let inner = self.rc_deref_mut()`: a name for a place inside self *)
-| VMark (e : ev).                        (* a user callback / an upstream subscription whose call is an observation: calling it
+| VMark (e : ev)                         (* a user callback / an upstream subscription whose call is an observation: calling it
                                             (f(), or .unsubscribe()) appends e to the output *)
+| VMarkArg.                              (* a user callback whose call with an item / an error appends Next item / Err error *)
 
 Definition env := list (string * rv).
 
@@ -485,6 +486,19 @@ Fixpoint find_method (p : prog) (key m : string) : option (list string * list rs
   | (k, n, b) :: p' => if String.eqb k key && String.eqb n m then Some b else find_method p' key m
   end.
 
+(* what follows the first ':' of a key "file:Type" *)
+Fixpoint after_colon (k : string) : string :=
+  match k with
+  | EmptyString => EmptyString
+  | String c r => if neqb (Ascii.nat_of_ascii c) 58 then r else after_colon r
+  end.
+
+Fixpoint find_any (p : prog) (name m : string) : option (list string * list rs) :=
+  match p with
+  | [] => None
+  | (k, n, b) :: p' => if String.eqb (after_colon k) name && String.eqb n m then Some b else find_any p' name m
+  end.
+
 (* the impl of method m for a struct: under its own name, or under the names the macros give it *)
 Definition find_impl (p : prog) (file name m : string) : option (list string * list rs) :=
   if String.eqb name "Option" then find_method p "observer.rs:$rc<Option>" m
@@ -494,7 +508,11 @@ Definition find_impl (p : prog) (file name m : string) : option (list string * l
   | None =>
       match find_method p (file ++ ":$rc<" ++ name ++ ">")%string m with
       | Some b => Some b
-      | None => find_method p (file ++ ":$name<O>")%string m
+      | None =>
+          match find_method p (file ++ ":$name<O>")%string m with
+          | Some b => Some b
+          | None => find_any p name m        (* a struct of another file (an observer wrapped by this one) *)
+          end
       end
   end.
 
@@ -629,7 +647,13 @@ Fixpoint eval_x (fuel : nat) (s : st) (e : rx) {struct fuel} : option (st * rv) 
         match eval_x f s g with
         | Some (s', clo) =>
             match eval_args f s' args with
-            | Some (s'', vs) => match apply_closure clo vs with Some r => Some (s'', r) | None => None end
+            | Some ((fr'', out''), vs) =>
+                match clo, vs with
+                | VMark e0, [] => Some ((fr'', out'' ++ [e0]), VUnit)
+                | VMarkArg, [VItem v] => Some ((fr'', out'' ++ [Next v]), VUnit)
+                | VMarkArg, [VErrv x] => Some ((fr'', out'' ++ [Err x]), VUnit)
+                | _, _ => match apply_closure clo vs with Some r => Some ((fr'', out''), r) | None => None end
+                end
             | None => None end
         | None => None end
     | XMeth r m args =>
